@@ -167,6 +167,31 @@ Example C06_source_tie_kmp_search_example :
   gen_kmpTable [(1,1)] [0] = Err IndexOutOfRange.
 Proof. vm_compute. repeat split; reflexivity. Qed.
 
+From Texel Require Import Snap.ProofsGenSmall.
+From Texel.Gen Require Import SnapSmallGen.
+
+(** ** tie G2: cleanupNewVertices (with its panic "no points found" and its two slice expressions),
+    asPointOrLine and ensureCorrectWindingOrder REGENERATED from snap.go on this run (gen/SnapSmallGen.v) are the
+    model's on all inputs; cleanupNewVertices can fail ONLY with NoPointsFound: neither slice expression nor
+    newVertices[0] is ever out of range.  Not translated but the model's own: windingOrderIsCorrect (float
+    predicate of the geom library) and mapslicehelp.ReverseClone (= rev); a nil [*[2]float64] is [None]. *)
+Theorem C06_source_tie_small :
+  (forall nv lv, gen_cleanupNewVertices nv lv = cleanupNewVertices nv lv) /\
+  (forall nv lv, gen_cleanupNewVertices nv lv <> Err SliceBounds /\ gen_cleanupNewVertices nv lv <> Err IndexOutOfRange) /\
+  (forall r, gen_asPointOrLine r = Ok (asPointOrLine r)) /\
+  (forall r cw, gen_ensureCorrectWindingOrder r cw = Ok (ensureCorrectWindingOrder r cw)).
+Proof.
+  split; [exact gen_cleanupNewVertices_spec |]. split; [exact gen_cleanupNewVertices_no_slice_panic |].
+  split; [exact gen_asPointOrLine_spec | exact gen_ensureCorrectWindingOrder_spec].
+Qed.
+Print Assumptions C06_source_tie_small.
+
+Example C06_source_tie_small_example :
+  gen_cleanupNewVertices [(1,1); (2,2); (3,3)] (Some (1,1)) = Ok [(2,2)] /\
+  gen_cleanupNewVertices [(1,1)] None = Ok [(1,1)] /\ gen_cleanupNewVertices [] None = Err NoPointsFound /\
+  gen_ensureCorrectWindingOrder [(0,0); (0,1); (1,0)] false = Ok [(1,0); (0,1); (0,0)].
+Proof. vm_compute. repeat split; reflexivity. Qed.
+
 From Texel Require Import Index.ProofsInsert Snap.ModelFull Snap.ProofsFull.
 Theorem C06_full_model_agrees_upto_level_32 : forall g P levels cfg, (gdeep g <= 32)%nat ->
   snapPolygonFull g P levels cfg = snapPolygon g P levels cfg.
